@@ -1,7 +1,13 @@
-//! Conformance drivers (pv-crypto). Sub-commands are added per property.
+//! Conformance drivers for pallas-crypto (C10..C14).
+mod kes;
+mod memsec;
+
 fn main() {
     let args = pv_core::Args::parse();
     match args.cmd.as_str() {
+        "kes-trace" => kes::trace(&args),
+        "memsec-replay" => memsec::replay(&args),
+        "memsec-trace" => memsec::trace(&args),
         other => pv_core::die(&format!("unknown sub-command {other}")),
     }
 }
